@@ -10,18 +10,17 @@ from functools import partial
 
 import numpy as np
 
-from symx.core import SInt, SRatio, SBool, Violation, HarnessError
+from symx.core import SInt, SRatio, SBool, Violation
 from symx.patch import patched, math_shim, ModuleShim, INT_SHIM, _isnan
 from symx.run import Obligation
 
-import dask
 import dask.array as da
 import dask.array.core as AC
 import dask.array.chunk as CH
 import dask.array.creation as CR
 import dask.array.wrap as W
 import dask.utils as U
-from dask._task_spec import Task, TaskRef, Alias, DataNode
+from dask._task_spec import Task, TaskRef, DataNode
 
 PROPERTY = "C34"
 LEVEL = "other"
@@ -89,7 +88,7 @@ BOUNDS = {
                   diagonal="2-d: N, M in 0..4, 5 chunk pairs, offsets -5..5, 3 axis pairs; 3-d (N,3,M): N, M in 0..2, 3 chunk pairs, offsets -3..3, 5 axis pairs",
                   wrap="1-d: s in [0, 8], c in [1, 9]; 2-d: s in [0, 4], c in [1, 5]; ones, zeros, full, empty"),
     "thorough": dict(arange="(a) start, stop in [-16, 16], c in [1, 17], step in +-{1..5}; (b) start, stop in [-10**6, 10**6], c <= 2*10**6+1, step in +-{1,2,3,7,10}, <= 6 blocks",
-                     eye="(a) N, M in [0, 9], c in [1, 10], k in [-12, 12]; (b) N, M in [0, 2000], k in [-5000, 5000], <= 4 blocks per axis",
+                     eye="(a) N, M in [0, 9], c in [1, 10], k in [-12, 12]; (b) N, M in [0, 1000], k in [-3000, 3000], <= 4 blocks per axis",
                      tri="N, M in 0..6", diag="1..4 blocks", diagonal="2-d: N, M in 0..6, 8 chunk pairs; 3-d: N, M in 0..3, 8 chunk pairs",
                      wrap="1-d: s <= 12; 2-d: s <= 7; 3-d: s <= 3"),
 }
@@ -221,7 +220,7 @@ def _arange_blocks(e, arr, g, what):
         n = e.ite(lambda: L > blen, L - 1, L)
         if e.mode == "native":
             got = t()
-            ref = np.array([bstart + q * bstep for q in range(n)], dtype=bdtype)
+            ref = (bstart + bstep * np.arange(n, dtype="i8")).astype(bdtype)       # first + q*step for q = 0..n-1
             e.check(got.dtype == ref.dtype and got.shape == ref.shape and bool((got == ref).all()),
                     f"{what}: interpretation of the block task differs from executing it")
         out.append((bstart, bstep, n, bdtype))
@@ -849,7 +848,7 @@ def obligations(tier):
         obs.append(mk_arange(16, 17, (1, 2, 3, 4, 5, -1, -2, -3, -4, -5), every=11))
         obs.append(mk_arange(10 ** 6, 2 * 10 ** 6 + 1, (1, 2, 3, 7, 10, -1, -2, -3, -7, -10), max_blocks=6, every=11))
         obs.append(mk_eye(9, 10, 12, every=13))
-        obs.append(mk_eye(2000, 2001, 5000, max_blocks=4, every=17))
+        obs.append(mk_eye(1000, 1001, 3000, max_blocks=4, every=17))
         obs.append(mk_tri(6, 10 ** 6, TRI_SPECS))
         for nb in (1, 2, 3, 4):
             obs.append(mk_diag1d(nb, 1000))
